@@ -104,7 +104,7 @@ TrFinish ==
     /\ LET e == fin[FirstIdx(fin, E.c)] IN
           /\ (E.ev = "c.errdone") <=> e.f.err
           /\ (E.ev = "c.ackdone") <=> (E.c \in Pings /\ ~e.f.err)
-    /\ \E d \in BOOLEAN : Finish(E.c, d)
+    /\ \E d \in BOOLEAN : Finish(E.c, d, FALSE)
     /\ Adv
 
 SetOf(s) == {s[i] : i \in 1..Len(s)}
